@@ -65,8 +65,16 @@ func c10Next(s *c10State, e impl.Event) (*c10State, bool) {
 		if top < 0 || n.stack[top].phase > 0 {
 			return nil, false
 		}
-		key := "|" + e.Local + "|"
-		if strings.Contains(n.stack[top].prefixes, key) {
+		// a prefix may be declared again on the same element (the later
+		// declaration replaces the earlier one - the XML adaptor itself does
+		// this for the implicit xml binding), but not the very same event twice
+		key := "|" + e.Local + "=" + e.Value + "|"
+		if strings.Contains(n.stack[top].prefixes, key) || strings.Count(n.stack[top].prefixes, "|"+e.Local+"=") >= 2 {
+			return nil, false
+		}
+		// the default namespace is declared or un-declared at most once per
+		// element (declaring it after xmlns="" on the same element has no meaning)
+		if e.Local == "" && strings.Contains(n.stack[top].prefixes, "|=") {
 			return nil, false
 		}
 		n.stack[top].prefixes += key
@@ -337,7 +345,7 @@ func C10(c *run.Check) {
 		}
 		c.Set("large_streams", fmt.Sprint(sizes, " x {flat text, sibling elements, nested(<=1e5)} under a 64 MB goroutine stack limit"))
 	}
-	c.Assume("event alphabet of 13 events; no duplicate prefix/attribute name on one element; namespace and attribute events only inside elements")
+	c.Assume("event alphabet of 13 events; a prefix is declared at most twice and an attribute name at most once per element; namespace and attribute events only inside elements")
 }
 
 // C10Stream is the subprocess body for large streams.
